@@ -247,7 +247,8 @@ def main(chk):
                        "objects; every %dth case with bounds within +-10^6 additionally through parsed source `s[a:b:c]`. Each answer is "
                        "compared with (a) Python's own list[slice] / list[i] on the list of elements or code points (the property's oracle) "
                        "and (b) the Coq model evaluated by vm_compute. Seeded random tail: lengths 0..40, bounds near the ends and random "
-                       "64-bit values. non-trivial: length >= 2 and not the all-nil range; distinct by (sequence, index-or-range)." % nsrc)
+                       "64-bit values; a range held in a variable used on a short then a long sequence; a sequence held in a variable sliced and then indexed / "
+                       "sliced again vs fresh literals; functions slicing with computed negative bounds called several times. non-trivial: length >= 2 and not the all-nil range; distinct by (sequence, index-or-range)." % nsrc)
     for i in (0, 1, len(cases) // 3, len(cases) // 2, nsys - 1, len(cases) - 1):
         (name, kind, seq, sel), o = cases[i], outs[i]
         chk.sample({"source": source_text(kind, seq, sel), "impl_direct": o["r"], "impl_source": o.get("s"),
